@@ -283,4 +283,44 @@ def extra_checks(ctx, cases, impl_lines, model_lines):
     # archive names with $ENV references: every kind of variable and value C19 knows (unset, set, set to bytes that
     # are not UTF-8, malformed references): the archives go where the one-pass expansion of the pattern says
     from gen import xcheck
-    return xcheck.borrow(ctx, "C19", "archives are named by the expanded pattern", lambda c: c[0] in (2, 12), n=300, seed_salt=43)
+    res = xcheck.borrow(ctx, "C19", "archives are named by the expanded pattern", lambda c: c[0] in (2, 12), n=300, seed_salt=43)
+    return res or bg_clone_checks(ctx, cases, model_lines)
+
+
+SETUP_FEATURE_BUILDS = [("c07", "background_rotation")]
+
+
+def bg_clone_checks(ctx, cases, model_lines_):
+    """the crate built with `background_rotation`: a roller and a CLONE of it (both in use) roll the same log file in
+    turn while the first rotation is slow.  The window is the roller's, however many clones act for it: rotations
+    happen one after the other, and when everything has settled the directory is the one the synchronous model
+    reaches with the same rolls."""
+    vc = ctx["vc"]
+    idx = [i for i, c in enumerate(cases) if c[0] == 0 and c[2] >= 2 and c[1] + c[2] <= U32 and all(o[0] == 1 for o in c[8]) and len(c[8]) >= 3
+           and "ENV" not in (c[4] if isinstance(c[4], str) else "") and not str(c[4]).startswith("xm/") and not str(c[6]).startswith("xm/")]
+    idx = idx[:: max(1, len(idx) // 24)][:24]
+    if not idx:
+        return []
+    exe = vc.build_harness("c07", features="background_rotation")
+    lines = [vc.show([8] + list(cases[i][1:])) for i in idx]
+    got = vc.run_lines([exe], lines, timeout_per_batch=600)
+    ran = 0
+    for i, ln, g in zip(idx, lines, got):
+        try:
+            iv, mv = vc.parse(g), vc.parse(model_lines_[i])
+            want = mv[-1][1]
+        except Exception:
+            return [("a roller and its clone rolling in turn (background_rotation build): the harness did not return normally (%s)" % g[:120],
+                     {"case_line": ln})]
+        if iv == [b"err", 1] or mv[-1][0] != 0:
+            continue
+        ran += 1
+        if iv[0] != 0:
+            return [("background_rotation build: a roll through a CLONE of the roller began its rotation while the original's "
+                     "rotation was still running (rotations of one roller must follow one another)", {"case_line": ln})]
+        if iv[1] != 0 or sorted(map(repr, iv[2])) != sorted(map(repr, want)):
+            return [("background_rotation build: a roller and its clone rolling in turn, the first rotation slow: when everything has "
+                     "settled the directory is %r (rolls that returned Err: %r), the synchronous model says %r" %
+                     (vc.jsonable(iv[2]), iv[1], vc.jsonable(want)), {"case_line": ln})]
+    ctx.setdefault("xcheck", {})["roller_and_clone_in_turn_on_the_background_rotation_build"] = ran
+    return []
